@@ -19,12 +19,12 @@ Python modelled
   a fundamental register is rebuilt (`Register(name, value)`) only when its size is a constant; an alias is always
   rebuilt (`Register(name, alias_from=…, alias_slice=…)`).  The constructors' checks are the `Builder` model's
   `mkRegister`, `mkQubit`, `mkSlice`;
-* `visit_GateStatement / visit_BlockStatement / visit_LoopStatement / visit_Macro / visit_Circuit` (`letStmt`, `letMacro`,
+* `visit_GateStatement / visit_BlockStatement / visit_LoopStatement / visit_Macro / visit_Circuit` (`visitStmt`, `letMacro`,
   `fillInLet`): `["gate", name, *args]`, `["subcircuit_block", visit(iterations), *stmts]` for a subcircuit block
   (whatever its `parallel` flag), else `["parallel_block" | "sequential_block", *stmts]`, `["loop", visit(iterations),
   visit(body)]`, `["macro", name, *parameter NAMES, body]` (the rebuilt macro's parameters are untyped),
   `["circuit", *usepulses, *constants, *visited registers, *macros, *body[1:]]`; order of visits: body, registers, macros;
-* `MapFiller` likewise (`mapVal`, `mapStmt`, `mapMacro`, `fillInMap`): `visit_NamedQubit` = `reg[index]` of
+* `MapFiller` likewise (`mapVal`, `mapStmt` = the same `visitStmt`, `mapMacro`, `fillInMap`): `visit_NamedQubit` = `reg[index]` of
   `qubit.resolve_qubit()` (empty context: a qubit indexed by / taken from a macro parameter raises `JaqalError`),
   `visit_Register` = the register itself if fundamental, `JaqalError` for an alias; subcircuit iteration counts are
   passed unvisited.
@@ -114,38 +114,44 @@ def ofVal : Val → BSx
   | .none => .none
   | v => .val v
 
-def letArgs (ov : List (String × Num)) : List (String × Val) → M (List BSx)
+/-- `[self.visit(param) for param in gate.parameters.values()]` (`F` = the visitor on values) -/
+def visitArgs (F : Val → M Val) : List (String × Val) → M (List BSx)
   | [] => pure []
   | (_, v) :: rest => do
-    let v' ← letVal ov false v
-    let rest' ← letArgs ov rest
+    let v' ← F v
+    let rest' ← visitArgs F rest
     pure (ofVal v' :: rest')
 
 def blockCmd (par : Bool) : String := if par then "parallel_block" else "sequential_block"
 
 mutual
-  /-- `LetFiller.visit` on a statement -/
-  def letStmt (ov : List (String × Num)) : Stmt → M BSx
+  /-- `visit_GateStatement`, `visit_BlockStatement`, `visit_LoopStatement` — the two visitors have the same three
+  methods up to what they do with a value (`F`: gate arguments and loop counts) and with the iteration count of a
+  subcircuit block (`G`: `LetFiller` visits it, `MapFiller` passes `block.iterations` on as it is). -/
+  def visitStmt (F G : Val → M Val) : Stmt → M BSx
     | .gate name _ args => do
-      let vs ← letArgs ov args
+      let vs ← visitArgs F args
       pure (.list (.str "gate" :: .str name :: vs))
     | .block par sub it body => do
-      let ss ← letStmts ov body
+      let ss ← visitStmts F G body
       if sub then do
-        let c ← letVal ov false it
+        let c ← G it
         pure (.list (.str "subcircuit_block" :: ofVal c :: ss))
       else pure (.list (.str (blockCmd par) :: ss))
     | .loop count body => do
-      let c ← letVal ov false count
-      let b ← letStmt ov body
+      let c ← F count
+      let b ← visitStmt F G body
       pure (.list [.str "loop", ofVal c, b])
-  def letStmts (ov : List (String × Num)) : List Stmt → M (List BSx)
+  def visitStmts (F G : Val → M Val) : List Stmt → M (List BSx)
     | [] => pure []
     | s :: rest => do
-      let x ← letStmt ov s
-      let xs ← letStmts ov rest
+      let x ← visitStmt F G s
+      let xs ← visitStmts F G rest
       pure (x :: xs)
 end
+
+/-- `LetFiller.visit` on a statement -/
+def letStmt (ov : List (String × Num)) : Stmt → M BSx := visitStmt (letVal ov false) (letVal ov false)
 
 def macroSx (m : Macro) (body : BSx) : BSx :=
   .list (.str "macro" :: .str m.name :: (m.params.map (fun p => BSx.str p.1) ++ [body]))
@@ -235,34 +241,8 @@ def mapVal : Val → M Val
   | .regS _ _ _ _ _ => throw (.jaqal "full-alias-in-statements")
   | v => pure v
 
-def mapArgs : List (String × Val) → M (List BSx)
-  | [] => pure []
-  | (_, v) :: rest => do
-    let v' ← mapVal v
-    let rest' ← mapArgs rest
-    pure (ofVal v' :: rest')
-
-mutual
-  /-- `MapFiller.visit` on a statement -/
-  def mapStmt : Stmt → M BSx
-    | .gate name _ args => do
-      let vs ← mapArgs args
-      pure (.list (.str "gate" :: .str name :: vs))
-    | .block par sub it body => do
-      let ss ← mapStmts body
-      if sub then pure (.list (.str "subcircuit_block" :: ofVal it :: ss))
-      else pure (.list (.str (blockCmd par) :: ss))
-    | .loop count body => do
-      let c ← mapVal count
-      let b ← mapStmt body
-      pure (.list [.str "loop", ofVal c, b])
-  def mapStmts : List Stmt → M (List BSx)
-    | [] => pure []
-    | s :: rest => do
-      let x ← mapStmt s
-      let xs ← mapStmts rest
-      pure (x :: xs)
-end
+/-- `MapFiller.visit` on a statement (the iteration count of a subcircuit block is not visited) -/
+def mapStmt : Stmt → M BSx := visitStmt mapVal pure
 
 /-- `MapFiller.visit_Macro` -/
 def mapMacro (m : Macro) : M BSx := do
